@@ -258,7 +258,9 @@ class ExtraCoords(ExtraCoordsABC):
         if not self.wcs:
             return tuple()
 
-        return tuple(self.wcs.world_axis_names) if self.wcs.world_axis_names else None
+        # The WCS may be held behind a high-level wrapper (after slicing with an integer, or resampling).
+        world_axis_names = getattr(self.wcs, "low_level_wcs", self.wcs).world_axis_names
+        return tuple(world_axis_names) if world_axis_names else None
 
     @property
     def mapping(self):
